@@ -725,6 +725,7 @@ class _InprocDumper(object):
 def check_case(case, ctx):
     decls, dump, gt_syms, q_syms = build(case)
     pipeline.M()
+    sys.modules['giscanner.gdumpparser']._verif_keep_subprocess = True
     sys.modules['giscanner.gdumpparser'].subprocess = subprocess if case.get('spawn') else _InprocDumper
     full = {'ns': NS, 'includes': [case['inc']], 'decls': decls, 'comments': [], 'dump': dump}
     try:
